@@ -14,6 +14,7 @@ from .common import WORK, MachineryError, dumps, sub_seed
 
 PROPS = ["C01", "C02", "C03", "C04", "C08", "C19"]
 TRACE_KEYS = ("den", "p0", "fund0", "exact", "ev")
+TRACE_DEFAULTS = {"halt": False}        # halt: the history is a market of a run with a trading halt rule
 
 DESIGN = {
     "quick": [("MC_PamsMarket_quick", "MC_PamsMarket_quick.cfg", 600), ("MC_PamsMarket_zero", "MC_PamsMarket_zero.cfg", 600)],
@@ -93,7 +94,7 @@ def validate(hs, tag="book"):
     batch, size, start = [], 0, 0
     batches = []
     for i, h in enumerate(hs):
-        line = dumps({k: h[k] for k in TRACE_KEYS})
+        line = dumps(dict({k: h[k] for k in TRACE_KEYS}, **{k: h.get(k, d) for k, d in TRACE_DEFAULTS.items()}))
         if size + len(line) > 40_000_000 and batch:
             batches.append((start, batch))
             batch, size, start = [], 0, i
@@ -232,6 +233,15 @@ def check(prop, tier, seed, t0):
             "runs": len(sruns), "forged_orders_returned": sum(1 for r in sruns for e in r["ev"] if e["k"] == "ret"
                                                               and any(b[0] == "o" and b[8] != e["a"] for b in e["batch"])),
             "runs_refused_with_ValueError": sum(1 for r in sruns if r["abort"].startswith("ValueError"))}
+    if prop == "C19":
+        # run level: the order an order-mistake shock writes (a limit order created by a hook) is rounded like any other
+        from . import drive_events, group_run
+        eruns = drive_events.generate(40 if tier == "quick" else 1200, sub_seed(seed, "events", prop), kinds=("mistake", "mixed", "mistake"))
+        ev_v, _ = group_run.validate(eruns, "TraceEvents")
+        for i, r in enumerate(eruns):
+            extra_cases.append({"verdict": ev_v[i][1].get("C19", "ok"), "sig": {"src": r["src"]},
+                                "replay": {"group": "run", "cfg": r["cfg"], "seed": r["seed"], "scenario": None}})
+        extra_cov["run_level_orders_written_by_hooks"] = {"runs": len(eruns)}
     if prop == "C03":
         # run level: rounds started by the runner while trading halts come and go (TraceEvents: no round ever raises in a run)
         from . import drive_events, group_run
